@@ -239,6 +239,39 @@ fn mode_words(ctx: &Arc<Ctx>) {
             }
         }
     }
+    // two parameters, single-parameter functions only: a 7-symbol alphabet explored to length 7 (8 thorough) - long enough for
+    // specifications with two complete functions plus x and the initial guess, e.g. two functions of the SAME parameter
+    let alpha_two: Vec<Sym> = vec![
+        Sym::X,
+        Sym::Init(2),
+        Sym::Func { names: vec!["a"], arity: 1 },
+        Sym::Func { names: vec!["b"], arity: 1 },
+        Sym::Pd { name: "a", arity: 1 },
+        Sym::Pd { name: "b", arity: 1 },
+        Sym::Inv,
+    ];
+    let ltwo = if ctx.args.thorough() { 8 } else { 7 };
+    {
+        let model = vec!["a", "b"];
+        for len in 5..=ltwo {
+            let total = (alpha_two.len() as u64).pow(len as u32);
+            let mut start = 0u64;
+            while start < total {
+                let end = (start + 4096).min(total);
+                let block = global;
+                global += 1;
+                if ctx.args.mine(block) {
+                    ctx.begin(block);
+                    for idx in start..end {
+                        let w = nth_word(&model, &alpha_two, len, idx);
+                        check_word(ctx, &w, &mut t, "words");
+                    }
+                    ctx.tick();
+                }
+                start = end;
+            }
+        }
+    }
     flush(ctx, &t, lmax as u64, "words");
 }
 
@@ -387,6 +420,10 @@ fn main() {
                     Ok(Err((sig, d))) => ctx.with(|s| s.violate("C17", &sig, v.clone(), d)),
                     Err(p) => ctx.with(|s| s.violate("C17", "panic", v.clone(), p)),
                 }
+                return;
+            }
+            if v["mode"] == "large-model" {
+                large_models(&ctx);
                 return;
             }
             if v.get("accepted_invalid_specification").is_some() {
@@ -736,13 +773,16 @@ mod routing {
         }
         // many parameters (past 64 and 128): one single-parameter function per parameter, plus functions of arity 3 and 10
         // that straddle the boundaries, in declaration orders different from the model order
-        for np in [70usize, 130] {
+        for np in [70usize, 130, 300] {
             let names: Vec<String> = (0..np).map(|k| format!("r{}", k)).collect();
             let mut funcs: Vec<Option<Func>> = vec![None];
             funcs.push(Some(Func { params: vec![65, 63, 64], deriv_order: vec![2, 0, 1] }));
             funcs.push(Some(Func { params: (0..10).map(|t| (60 + 7 * t) % np).collect(), deriv_order: (0..10).rev().collect() }));
             if np > 128 {
                 funcs.push(Some(Func { params: vec![129, 127, 128, 0], deriv_order: vec![0, 1, 2, 3] }));
+            }
+            if np > 256 {
+                funcs.push(Some(Func { params: vec![257, 255, 256, 1, 299], deriv_order: vec![4, 3, 2, 1, 0] }));
             }
             let funcs = complete(&names, funcs);
             visit(ModelDesc { names, funcs });
